@@ -1446,13 +1446,18 @@ class MultiTenantPool(FixedPool):
                         state.PickledDatabaseState(
                             user_schema_pickle=(
                                 user_schema_pickle
-                                or worker_db.user_schema_pickle
+                                if user_schema_pickle is not None
+                                else worker_db.user_schema_pickle
                             ),
                             reflection_cache=(
-                                reflection_cache or worker_db.reflection_cache
+                                reflection_cache
+                                if reflection_cache is not None
+                                else worker_db.reflection_cache
                             ),
                             database_config=(
-                                database_config or worker_db.database_config
+                                database_config
+                                if database_config is not None
+                                else worker_db.database_config
                             ),
                         )
                     )
